@@ -67,6 +67,10 @@ def name_pool(rng, n=5):
         k = rng.randrange(len(labs))
         pre = [rng.choice(LABELS[:6])] * rng.choice([0, 1, 1, 2])
         nm = (pre + labs[k:])[:6]
+        if rng.random() < 0.35:
+            # same suffix in another letter case: a different name on the wire (labels are compared byte-wise)
+            j = rng.randrange(len(nm))
+            nm = nm[:j] + [rng.choice([nm[j].swapcase(), nm[j].upper(), nm[j].lower()])] + nm[j + 1:]
         out.append(b".".join(nm) + b".")
     return out
 
